@@ -504,6 +504,12 @@ func c04Frames(c *Ctx) {
 				}
 			}
 			key := "gen:" + g.Name + "/" + topFn(fn).Name() + "/" + kind
+			if rec == nil && kind == "list-element" && onlyCallsFramedClosure(fn) {
+				// a goroutine wrapper that only does bookkeeping (deferred Done/Release) around a call of the sibling
+				// closure that carries the recover: the user code still runs below a frame of this position
+				c.R.OK(key, c.pos(fn.Pos()), "bookkeeping wrapper; the only call that can panic is the sibling closure that registers the recover first")
+				continue
+			}
 			if rec == nil {
 				c.R.Bad(key, c.pos(fn.Pos()), "no deferred recover in this "+kind+" function: a panic below it is not contained at this position")
 				continue
@@ -570,4 +576,53 @@ func isListElemClosure(fn *ssa.Function) bool {
 		}
 	}
 	return false
+}
+
+
+// onlyCallsFramedClosure: every call of fn that may panic is a call of a function literal of the same parent whose first
+// may-panic call is preceded by a deferred recover.
+func onlyCallsFramedClosure(fn *ssa.Function) bool {
+	n := 0
+	for _, b := range fn.Blocks {
+		for _, in := range b.Instrs {
+			call, ok := in.(*ssa.Call)
+			if !ok || !mayPanicCall(in) {
+				continue
+			}
+			var target *ssa.Function
+			for _, d := range an.Defs(call.Call.Value) {
+				if mc, isMC := d.(*ssa.MakeClosure); isMC {
+					target, _ = mc.Fn.(*ssa.Function)
+				}
+			}
+			if target == nil || target.Parent() != fn.Parent() {
+				return false
+			}
+			var rec *ssa.Defer
+			for _, b2 := range target.Blocks {
+				for _, in2 := range b2.Instrs {
+					if d, ok := in2.(*ssa.Defer); ok && deferRecovers(d) && rec == nil {
+						rec = d
+					}
+				}
+			}
+			if rec == nil {
+				return false
+			}
+			for _, b2 := range target.Blocks {
+				for _, in2 := range b2.Instrs {
+					if mayPanicCall(in2) && !an.Before(rec, in2) {
+						if c2, isC := in2.(*ssa.Call); isC {
+							if _, isMC := c2.Call.Value.(*ssa.MakeClosure); isMC {
+								continue
+							}
+						}
+						return false
+					}
+				}
+			}
+			n++
+		}
+	}
+	return n > 0
 }
